@@ -6,7 +6,7 @@
    instantiation of the generic theorems with the library's reactions.
    Proofs: Proofs/ClaimProofsA.v (generic), ClaimProofsB.v (lib_R1..R5, exhausted search, transmitted source, D-04 witness), ClaimProofsC.v (address-changed
    indication), ClaimProofsD.v (commanded addresses that avoid siblings, Open()/Restart()), ClaimProofsE.v (instantiation);
-   closing theorems: Props/Properties_C03.v.  Not proved: converges_stmt (search in tools/p_C03.py instead). *)
+   ClaimProofsF.v (convergence, generic), ClaimProofsG.v (convergence, library); closing theorems: Props/Properties_C03.v. *)
 From Coq Require Import ZArith List Bool.
 From N2kV Require Import Base.ListAux Model.CanId Model.Sched Model.PgnClass Model.NodeDefs Model.NodeRxDefs Model.NetDefs Gen.GenTables Gen.GenConsts Spec.SendSpec.
 Import ListNotations.
@@ -137,8 +137,9 @@ Definition lower_name_wins_stmt : Prop :=
       number of addresses left before AddressClaimEndSource, then the null address).  The intended proof is an induction on the
       rank of the NAMEs: the device with the highest NAME never defends, so it emits at most one claim per move; a device defends
       at most once per claim emitted by a higher NAME; hence the total number of claims ever emitted is bounded.
-      (* not yet proved *)  - covered by exhaustive exploration of every schedule of the MODEL network for 2..4 participants
-      (tools/p_C03.py, `EXPL` lines of ocaml/drv_NET.ml), which is a search, not a proof. *)
+      Proved (Proofs/ClaimProofsF.v) with the lexicographic measure (sum of the devices' measures, pending claims weighted by
+      nodes ^ rank of their NAME); instantiated for library and reference nodes in Part 4 (Proofs/ClaimProofsG.v).  The exhaustive
+      exploration of the MODEL network for 2..4 participants (tools/p_C03.py, `EXPL` lines) remains as an independent search. *)
 Definition deliveries nstate nodes react (w w':world nstate) : Prop :=
   exists i c l1 l2, (i < nodes)%nat /\ inbox nstate w i = l1 ++ c :: l2 /\
     w' = {| st := upd (st nstate w) i (fst (react i (st nstate w i) c)); inbox := bcast nodes (upd (inbox nstate w) i (l1 ++ l2)) i (snd (react i (st nstate w i) c)) |}.
@@ -366,3 +367,67 @@ Definition library_quiescent_unique_partial_stmt : Prop :=
          operational (c_addr (st pkind w i) k) -> c_addr (st pkind w i) k <> c_addr (st pkind w j) l) /\
       (forall i c l1 l2 k, inbox pkind w i = l1 ++ c :: l2 -> valid_dev nodes ndev0 i k ->
          c_addr (fst (c_react i (st pkind w i) c)) k <> c_addr (st pkind w i) k -> cx c = c_addr (st pkind w i) k /\ operational (cx c) /\ cn c < name0 i k).
+
+(* ======================================================================================================================= *)
+(* Part 4: convergence of networks of library and reference nodes                                                          *)
+(* ======================================================================================================================= *)
+(* the measure of statement 5 for the library: the number of addresses a device can still try before it gives up.  The search end
+   (AddressClaimEndSource) is recomputed when an expired claim timer is noticed (IsAddressClaimStarted), which can happen once, inside
+   the send of a defence (time does not pass during deliveries; a move re-arms the timer 250 ms ahead): a device whose timer is enabled
+   and expired is given a value above every search length *)
+Definition lib_expirable (r:rnode) (k:nat) : bool :=
+  sched_is_enabled (n_w64 (rn r)) (d_claim_timer (lib_dev r k)) && sched_is_time (n_w64 (rn r)) (n_now (rn r)) (d_claim_timer (lib_dev r k)).
+Definition lib_left (r:rnode) (k:nat) : nat :=
+  if lib_src r k =? 254 then 0%nat else if lib_expirable r k then 600%nat else S (Z.to_nat (dist_to_end (lib_src r k) (d_claim_end (lib_dev r k)))).
+Definition c_left (s:pkind) (k:nat) : nat :=
+  match s with
+  | PLib r => lib_left r k
+  | PRef f => match k with O => if fn_addr f =? 254 then 0%nat else S (Z.to_nat (dist_to_end (fn_addr f) (fn_end f))) | _ => 0%nat end
+  end.
+(* the millisecond clock of a library node is far from the end of its 64-bit range (a timer armed 250 ms ahead is not yet expired) *)
+Definition clock_ok (s:pkind) : Prop := match s with PLib r => 0 <= n_now (rn r) < 2^63 | PRef _ => True end.
+Definition c_good2 (ndev0:nat -> nat) (name0:nat -> nat -> Z) (i:nat) (s:pkind) : Prop := c_good ndev0 name0 i s /\ clock_ok s.
+(* the library's and the reference node's reactions satisfy the additional hypotheses of statement 5 *)
+Definition library_converge_hyps_stmt : Prop :=
+  forall nodes ndev0 name0, config_ok nodes ndev0 name0 ->
+    node_hyps pkind nodes ndev0 c_addr name0 (c_good2 ndev0 name0) c_react c_spont c_allowed /\
+    forall i s c, pre pkind nodes ndev0 c_addr name0 (c_good2 ndev0 name0) i s c ->
+      (length (snd (c_react i s c)) <= 1)%nat /\
+      (snd (c_react i s c) <> [] -> exists k, valid_dev nodes ndev0 i k /\ c_addr s k = cx c /\ operational (cx c)) /\
+      (forall k, valid_dev nodes ndev0 i k -> (c_addr (fst (c_react i s c)) k = c_addr s k /\ c_left (fst (c_react i s c)) k = c_left s k) \/
+                                             (c_left (fst (c_react i s c)) k < c_left s k)%nat).
+(* hence: from every world reachable by any start-up order, restarts, sibling-avoiding commanded addresses and deliveries, every
+   schedule of deliveries is finite ... *)
+Definition library_converges_stmt : Prop :=
+  forall nodes ndev0 name0, config_ok nodes ndev0 name0 ->
+    forall w0 w, initial pkind nodes ndev0 c_addr (c_good2 ndev0 name0) w0 -> steps pkind nodes c_react c_spont c_allowed w0 w ->
+      Acc (fun w2 w1 => deliveries pkind nodes c_react w1 w2) w.
+(* ... and where it ends (no delivery is possible any more) all devices that hold an address hold different ones *)
+Definition library_ends_unique_stmt : Prop :=
+  forall nodes ndev0 name0, config_ok nodes ndev0 name0 ->
+    forall w0 w, initial pkind nodes ndev0 c_addr (c_good2 ndev0 name0) w0 -> steps pkind nodes c_react c_spont c_allowed w0 w ->
+      (forall w', ~ deliveries pkind nodes c_react w w') ->
+      forall i k j l, valid_dev nodes ndev0 i k -> valid_dev nodes ndev0 j l -> (i, k) <> (j, l) ->
+        operational (c_addr (st pkind w i) k) -> c_addr (st pkind w i) k <> c_addr (st pkind w j) l.
+
+(* ======================================================================================================================= *)
+(* Part 5: from claims to frames - a received PGN 60928 frame reaches HandleISOAddressClaim                                  *)
+(* ======================================================================================================================= *)
+(* An open node in mode NodeOnly / ListenAndNode, PGN 60928 classified as the library's tables do (known, system, single frame), whose
+   reassembly slots are all free (the state every completely handled message leaves them in) reads the pending claim frame
+   (identifier: priority 6, PGN 60928, source x; 8 data bytes = NAME n): the receive loop of ParseMessages hands exactly (x, the 8 bytes)
+   to HandleISOAddressClaim - applied to a node state r1 that differs from r only in the receive queue and slot 0 -, delivers the
+   message to the application, frees the slot again and stops (nothing else is pending).  Because lib_good, lib_src, lib_name, ... only
+   look at [rn], the theorems about [on_claim] apply to r1 as they do to r.
+   NOT covered: a claim frame that finds no reassembly slot (all slots busy with unfinished multi-frame messages younger than the
+   time-out) is dropped by SetN2kCANBufMsg before HandleISOAddressClaim sees it. *)
+Definition slots_free (r:rnode) : Prop := r_slots r <> [] /\ Forall (fun s => s_free s = true) (r_slots r).
+Definition claim_frame_dispatch_stmt : Prop :=
+  forall gf r x n fuel,
+    n_open (rn r) = 3 -> is_active_node (rn r) = true -> check_known (n_pgn (rn r)) 60928 = (true, true, false) -> slots_free r ->
+    0 <= x < 256 -> r_q r = [claim_frame {| cx := x; cn := n |}] ->
+    exists r1 m, rn r1 = rn r /\
+      let h := handle_claim r1 x (name_bytes n) in
+      let res := rx_loop gf (S fuel) r in
+      rn (fst res) = rn (fst h) /\ snd res = snd h ++ [EvDeliver m] /\ ev_claims (snd res) = ev_claims (snd h) /\
+      r_q (fst res) = [] /\ slots_free (fst res).
